@@ -15,8 +15,8 @@ import (
 type alpha struct {
 	tx, gc, drain, reopen, otherDB bool
 	deleteEmptyKey                 bool // Delete("") is accepted by the store (only Set rejects the empty key)
-	maxTx                 int
-	levels                []model.TxIsoLevel
+	maxTx                          int
+	levels                         []model.TxIsoLevel
 }
 
 var allLevels = []model.TxIsoLevel{fs_db.IsoLevelReadUncommitted, fs_db.IsoLevelReadCommitted, fs_db.IsoLevelRepeatableRead, fs_db.IsoLevelSerializable}
